@@ -66,7 +66,13 @@ def render_script(case):
             elif op == "set":
                 lines.append(f"    state.set('pyscript.pv_' + str(rid) + '_{ai}', 'v{ai}')")
             elif op == "call":
-                lines.append(f"    pvtest.svc(rid=rid, ai={ai})")
+                # natively registered test services of the three response kinds, both call forms
+                svc = "svc_" + act.get("svc", "none")
+                extra = "".join(f", {k}={act[k]!r}" for k in ("return_response", "blocking") if act.get(k) is not None)
+                if act.get("form", "direct") == "call":
+                    lines.append(f"    service.call('pvtest', {svc!r}, rid=rid, ai={ai}{extra})")
+                else:
+                    lines.append(f"    pvtest.{svc}(rid=rid, ai={ai}{extra})")
             else:
                 raise ValueError(op)
         lines.append("")
@@ -146,6 +152,7 @@ async def run_case(case):
     subs = []  # (pattern, callback) in subscription order
     reg_attempts = []  # webhook registration attempts: {"fn":, "key":, "ok":}
     driver_firing = [None]
+    pending_calls = {}
     real_register = webhook_mod.async_register
 
     async def fake_subscribe(hass, topic, msg_callback, qos=0, encoding="utf-8", **_kw):
@@ -199,10 +206,15 @@ async def run_case(case):
                         c, p = cpair(ev.context)
                         trace.append({"o": "set", "rid": int(rid), "ai": int(ai), "ctx": c, "par": p})
                 elif et == "call_service":
+                    # position in the trace = when the call was made; the context recorded is the one the SERVICE sees
+                    # (ServiceCall.context, filled in by the handler below; None if the service was never invoked)
                     if ev.data.get("domain") == "pvtest":
                         sd = ev.data.get("service_data", {})
                         c, p = cpair(ev.context)
-                        trace.append({"o": "call", "rid": sd.get("rid"), "ai": sd.get("ai"), "ctx": c, "par": p})
+                        ent = {"o": "call", "rid": sd.get("rid"), "ai": sd.get("ai"), "ctx": None, "par": None,
+                               "bus_ctx": c, "bus_par": p, "svc": ev.data.get("service")}
+                        pending_calls[(sd.get("rid"), sd.get("ai"))] = ent
+                        trace.append(ent)
                 elif et.startswith("pv_"):
                     d = dict(ev.data)
                     c, p = cpair(ev.context)
@@ -210,10 +222,22 @@ async def run_case(case):
 
             hass.bus.async_listen(MATCH_ALL, rec)
 
-            async def svc(call):
-                return None
+            from homeassistant.core import SupportsResponse
 
-            hass.services.async_register("pvtest", "svc", svc)
+            async def svc(call):
+                ent = pending_calls.get((call.data.get("rid"), call.data.get("ai")))
+                c, p = cpair(call.context)
+                if ent is None:
+                    trace.append({"o": "call", "rid": call.data.get("rid"), "ai": call.data.get("ai"), "ctx": c, "par": p})
+                elif ent["ctx"] is None:
+                    ent["ctx"], ent["par"] = c, p
+                else:  # invoked twice
+                    trace.append({"o": "call", "rid": call.data.get("rid"), "ai": call.data.get("ai"), "ctx": c, "par": p})
+                return {"ok": call.data.get("ai")} if call.return_response else None
+
+            hass.services.async_register("pvtest", "svc_none", svc)
+            hass.services.async_register("pvtest", "svc_opt", svc, supports_response=SupportsResponse.OPTIONAL)
+            hass.services.async_register("pvtest", "svc_only", svc, supports_response=SupportsResponse.ONLY)
             await env.settle()
 
             for i, ent in enumerate(case["sched"]):
